@@ -9,7 +9,8 @@
 (* mutation of it is still in flight.                                       *)
 EXTENDS Naturals, Sequences, FiniteSets, TLC
 CONSTANTS Mut,          \* set of mutations
-          Field, FieldOf, ValOf,   \* each mutation assigns one field of the row: FieldOf[m], ValOf[m]
+          Field, FieldOf, ValOf,   \* each mutation assigns one field of the row: FieldOf[m], ValOf[m]; FieldOf[m] = "none": the
+                                   \* mutation changes nothing (it clears a reference that is already empty) and writes nothing
           DEV
 VARIABLES row,    \* Field -> value stored
           pc,     \* Mut -> "new" | "read" | "validated" | "written"
@@ -20,16 +21,20 @@ Init == row = [f \in Field |-> "v0"] /\ pc = [m \in Mut |-> "new"] /\ snap = [m 
 InFlight(m) == pc[m] \in {"read", "validated"}
 Read(m) == /\ pc[m] = "new"
            /\ (Has("StaleSnapshotWrittenBack") \/ ~\E n \in Mut : InFlight(n))
-           /\ snap' = [snap EXCEPT ![m] = [row EXCEPT ![FieldOf[m]] = ValOf[m]]]
+           /\ snap' = [snap EXCEPT ![m] = IF FieldOf[m] = "none" THEN row ELSE [row EXCEPT ![FieldOf[m]] = ValOf[m]]]
            /\ pc' = [pc EXCEPT ![m] = "read"] /\ UNCHANGED row
 Validate(m) == pc[m] = "read" /\ pc' = [pc EXCEPT ![m] = "validated"] /\ UNCHANGED <<row, snap>>
-Write(m) == pc[m] = "validated" /\ row' = snap[m] /\ pc' = [pc EXCEPT ![m] = "written"] /\ UNCHANGED snap
+\* (deviation NoopWritesSnapshot: a mutation that changes nothing writes the row it read all the same)
+Write(m) == /\ pc[m] = "validated"
+            /\ row' = IF FieldOf[m] = "none" /\ ~Has("NoopWritesSnapshot") THEN row ELSE snap[m]
+            /\ pc' = [pc EXCEPT ![m] = "written"] /\ UNCHANGED snap
 Next == \E m \in Mut : Read(m) \/ Validate(m) \/ Write(m)
 Spec == Init /\ [][Next]_vars
 AllDone == \A m \in Mut : pc[m] = "written"
 \* the row after applying the mutations one after another in the order given by the sequence
 RECURSIVE Serial(_, _)
-Serial(r, s) == IF s = <<>> THEN r ELSE Serial([r EXCEPT ![FieldOf[Head(s)]] = ValOf[Head(s)]], Tail(s))
+Serial(r, s) == IF s = <<>> THEN r
+                ELSE Serial(IF FieldOf[Head(s)] = "none" THEN r ELSE [r EXCEPT ![FieldOf[Head(s)]] = ValOf[Head(s)]], Tail(s))
 Perms == {s \in [1..Cardinality(Mut) -> Mut] : \A i, j \in 1..Cardinality(Mut) : i # j => s[i] # s[j]}
 Serializable == AllDone => \E s \in Perms : row = Serial([f \in Field |-> "v0"], s)
 =============================================================================
